@@ -82,11 +82,17 @@ def main(argv):
             # instead: that is a broken correspondence (handled like any other), unless the failure is the harness's own.
             tb = traceback.extract_tb(e.__traceback__)
             inside = [f for f in tb if "/joserfc/" in f.filename]
-            if not inside:
+            if inside:
+                where = f"{inside[-1].filename.split('/joserfc/')[-1]}:{inside[-1].lineno}"
+                ctx.disagreements.append({"suite": "harness-call", "request": f"{type(e).__name__} raised at {where} in a call the harness makes unconditionally",
+                                          "model": "returns", "impl": "".join(traceback.format_exception(e))[-1500:]})
+            elif ctx.violations and isinstance(e, (ValueError, KeyError, IndexError, TypeError, AttributeError, UnicodeError)):
+                # the harness itself tripped while taking apart an output of the implementation AFTER violations were already
+                # recorded (an output of an unexpected shape): the recorded violations stand, the rest of the run is skipped
+                ctx.disagreements.append({"suite": "harness-output-shape", "request": f"{type(e).__name__} in the harness while interpreting an implementation output",
+                                          "model": "-", "impl": "".join(traceback.format_exception(e))[-1500:]})
+            else:
                 raise
-            where = f"{inside[-1].filename.split('/joserfc/')[-1]}:{inside[-1].lineno}"
-            ctx.disagreements.append({"suite": "harness-call", "request": f"{type(e).__name__} raised at {where} in a call the harness makes unconditionally",
-                                      "model": "returns", "impl": "".join(traceback.format_exception(e))[-1500:]})
 
         found_before = sum(1 for v in ctx.violations if v[1])
         if (broken or ctx.disagreements) and not found_before:
